@@ -111,11 +111,19 @@ def session (g : Geo) (cv : Conv) (calls : List (Ty × List Int)) : WState ES :=
 def closedBytes (g : Geo) (cv : Conv) (calls : List (Ty × List Int)) : List Byte :=
   (closeSt g (session g cv calls)).bytes
 
+/-- `psf->sf.frames` right after the open for write: `wav_open` and `aiff_open` clear it; `w64_open` sets it, for the two
+    ADPCM encodings, to the "stupidly high" file length SF_COUNT_MAX - 10000 -/
+def openFrames (w64 : Bool) : Nat := if w64 then 2 ^ 63 - 1 - 10000 else 0
+
 /-- `psf->sf.frames` as the close functions leave it for the header writer (`fact` chunk of WAV / W64, numSampleFrames of
-    AIFF): `ima_close` stores `samplesperblock * blockcount / channels` (blockcount = encode calls), `msadpcm_close` leaves
-    the count of frames written -/
-def headerFrames (g : Geo) (nblk written : Nat) : Nat :=
-  if g.kind = .ms then written else g.spb * nblk / g.ch
+    AIFF): `ima_close` stores `samplesperblock * blockcount / channels` (blockcount = encode calls; the division by the
+    channel count halves the value for two channels); `msadpcm_close` stores nothing: the field keeps the larger of what the
+    open left there and the count of frames written (in a W64 file: SF_COUNT_MAX - 10000) -/
+def headerFrames (g : Geo) (nblk written openF : Nat) : Nat :=
+  if g.kind = .ms then max openF written else g.spb * nblk / g.ch
+
+/-- the header field itself: AIFF-C stores the number of 64-frame packets (`sf.frames / AIFC_IMA4_SAMPLES_PER_BLOCK`) -/
+def headerField (g : Geo) (hf : Nat) : Nat := if g.kind = .imaAiff then hf / 64 else hf
 
 /-! ## re-open -/
 
